@@ -1004,6 +1004,8 @@ func newWatchEventPeer(peer *peer, m *fsmMsg, newState, oldState bgp.FSMState, t
 	// Publish conf only after buildopen and capabilitiesFromConfig finish mutating it
 	// (capabilitiesFromConfig updates per-AFI GR advertised state).
 	peer.fsm.pConf.Update(&conf)
+	// recvOpen is written by the FSM goroutine under fsm.lock (opensent)
+	recvOpen := peer.fsm.recvOpen
 	peer.fsm.lock.Unlock()
 
 	// the address the session really uses (like the ports below); the
@@ -1012,7 +1014,6 @@ func newWatchEventPeer(peer *peer, m *fsmMsg, newState, oldState bgp.FSMState, t
 	if !localAddress.IsValid() {
 		localAddress = conf.Transport.Config.LocalAddress
 	}
-	recvOpen := peer.fsm.recvOpen
 	e := &watchEventPeer{
 		Type:          t,
 		PeerAS:        conf.State.PeerAs,
